@@ -234,12 +234,7 @@ class Repo:
         if threads:
             cmd += ["-n", str(threads)]
         cmd += args
-        try:
-            p = subprocess.run(cmd, cwd=self.root, env=self.env(env), stdout=subprocess.PIPE, stderr=subprocess.STDOUT,
-                               timeout=timeout, text=True, errors="replace")
-            rc, outp = p.returncode, p.stdout
-        except subprocess.TimeoutExpired as ex:
-            rc, outp = -9, "TIMEOUT after %ss\n%s" % (timeout, (ex.stdout or b"").decode("utf8", "replace") if isinstance(ex.stdout, bytes) else (ex.stdout or ""))
+        rc, outp, _ = vlib.run_plz(cmd, self.root, self.env(env), timeout)
         lines = []
         if os.path.exists(self.log):
             with open(self.log) as f:
